@@ -30,7 +30,7 @@ func init() {
 		Run:            run,
 		MinEvaluations: map[string]int{"quick": 300000, "thorough": 20000000},
 		MinNontrivial:  map[string]int{"quick": 3000, "thorough": 30000},
-		RequiredObs:    []string{"saves_on_same_iterator", "save_points", "save_points_after_exhaustion", "save_points_before_first", "chains", "interleaved_steps", "configs_with_predicate"},
+		RequiredObs:    []string{"failed_save_attempts", "saves_on_same_iterator", "save_points", "save_points_after_exhaustion", "save_points_before_first", "chains", "interleaved_steps", "configs_with_predicate"},
 	})
 }
 
@@ -318,8 +318,41 @@ func (m *mon) checkpoints(S []string, positions []int, mode int) bool {
 		if !m.advance(lo, fmt.Sprintf("loaded-from-checkpoint-mode%d", mode), S, pos, rem, k) {
 			return false
 		}
+		// every third checkpoint is FOLLOWED by a Save into a writer that fails (at once, or after a few bytes); the
+		// iterator then advances to the next checkpoint position.
+		// Save is documented to panic on a write error; the attempt must leave no trace: the original goes on
+		// correctly and the next checkpoint loads on its own.
+		if (k+mode)%3 == 0 {
+			fw := &failingWriter{okBytes: []int{0, 10, 1}[(k/3)%3]}
+			pf := c.CallN(key+"|Save-into-failing-writer", int64(k), func() { it.Save(fw) })
+			if pf == nil {
+				c.Obs("failed_save_attempts_returning_normally", 1)
+			} else {
+				c.Obs("failed_save_attempts_panicking(documented)", 1)
+			}
+			c.Obs("failed_save_attempts", 1)
+		}
 	}
 	return true
+}
+
+// failingWriter accepts okBytes bytes and then fails every Write.
+type failingWriter struct {
+	okBytes int
+	written int
+}
+
+func (w *failingWriter) Write(p []byte) (int, error) {
+	if w.written+len(p) <= w.okBytes {
+		w.written += len(p)
+		return len(p), nil
+	}
+	n := w.okBytes - w.written
+	if n < 0 {
+		n = 0
+	}
+	w.written += n
+	return n, fmt.Errorf("injected write failure after %d bytes", w.written)
 }
 
 func configs(thorough bool) []config {
